@@ -282,6 +282,8 @@ fn check_faulty(base: &Base, faults: &[Fault]) -> (Option<Viol>, bool) {
                     ("hermes", format!("{},\"x_facebook_sources\":[]}}", &inner[..inner.len() - 1])),
                     // a bit field for the first line only, as this crate's own encoder writes it
                     ("map-with-rangeMappings", format!("{},\"rangeMappings\":\"A\"}}", &inner[..inner.len() - 1])),
+                    // more contents entries than sources: the bound for source indices is the sources array
+                    ("map-with-longer-sourcesContent", format!("{},\"sourcesContent\":[null,\"x\",null,null]}}", &inner[..inner.len() - 1])),
                 ];
                 for (how, w) in wrapped {
                     match guarded(|| decode_slice(w.as_bytes())) {
